@@ -308,6 +308,9 @@ func (r *Resolver) of(v ssa.Value) *Org {
 		return &Org{K: "field", V: x, Name: fieldName(x.X.Type(), x.Field), Sub: []*Org{base}}
 	case *ssa.Field:
 		base := r.Of(x.X)
+		if v := structCallField(base, x.Field); v != nil {
+			return v
+		}
 		return &Org{K: "field", V: x, Name: fieldName(x.X.Type(), x.Field), Sub: []*Org{base}}
 	case *ssa.IndexAddr:
 		base := r.content(r.Of(x.X), x)
@@ -336,6 +339,13 @@ func (r *Resolver) of(v ssa.Value) *Org {
 					// package initialiser and never written again
 					if sv, sr := r.globalFieldValue(x.X); sv != nil {
 						return sr.Of(sv)
+					}
+				}
+			}
+			if in.K == "field" && len(in.Sub) == 1 {
+				if fa, ok := x.X.(*ssa.FieldAddr); ok {
+					if v := structCallField(in.Sub[0], fa.Field); v != nil {
+						return v
 					}
 				}
 			}
@@ -995,3 +1005,75 @@ func (r *Resolver) globalFieldValue(addr ssa.Value) (ssa.Value, *Resolver) {
 	}
 	return nil, nil
 }
+
+
+// structCallField: base is the struct value returned (by value) by a
+// repository helper that builds it as a literal: the origin of the value
+// the helper stored into field `field` of that literal (parameters of the
+// helper bound to the caller's arguments). nil when base is not of that
+// shape. Lets the value rules follow fields that travel in a small struct
+// (parsed fields bundled by a helper and handed on to the event builder).
+func structCallField(base *Org, field int) *Org {
+	if base == nil || base.K != "call" || base.R == nil || base.R.P == nil {
+		return nil
+	}
+	call, ok := base.V.(*ssa.Call)
+	if !ok {
+		return nil
+	}
+	sc := staticCallee(call.Common())
+	if sc == nil || !InRepo(sc) || sc.Blocks == nil {
+		return nil
+	}
+	idx := base.Idx
+	if idx < 0 {
+		idx = 0
+	}
+	if idx >= sc.Signature.Results().Len() {
+		return nil
+	}
+	if _, isStruct := sc.Signature.Results().At(idx).Type().Underlying().(*types.Struct); !isStruct {
+		return nil
+	}
+	if structCallDepth > 4 {
+		return nil
+	}
+	structCallDepth++
+	defer func() { structCallDepth-- }()
+	nr := base.R.Bind(sc, call)
+	var outs []*Org
+	okAll := true
+	allInstrs(sc, func(in ssa.Instruction) {
+		ret, isRet := in.(*ssa.Return)
+		if !isRet || idx >= len(ret.Results) || in.Block() == sc.Recover || !okAll {
+			return
+		}
+		res := strip(ret.Results[idx])
+		ld, isLd := res.(*ssa.UnOp)
+		if !isLd || ld.Op != token.MUL {
+			okAll = false
+			return
+		}
+		al, isAl := ld.X.(*ssa.Alloc)
+		if !isAl {
+			okAll = false
+			return
+		}
+		val, vr := nr.allocPathValue(al, []int{field}, 0)
+		if val == nil {
+			// no store to that field in the literal: its zero value
+			outs = append(outs, &Org{K: "zero"})
+			return
+		}
+		outs = append(outs, vr.Of(val))
+	})
+	if !okAll || len(outs) == 0 {
+		return nil
+	}
+	if len(outs) == 1 {
+		return outs[0]
+	}
+	return &Org{K: "phi", V: call, Sub: outs}
+}
+
+var structCallDepth int
